@@ -61,8 +61,11 @@ func firstN(s string, n int) string {
 
 // withKind substitutes the kind of the URL-bound fields p, q, rq of the standard RPC shape.
 func withKind(sym wire.AReq, kind string) wire.AReq {
-	out := sym
-	out.Rpc.Fdefs = append([]wire.FDef(nil), sym.Rpc.Fdefs...)
+	// deep copy: the concretiser writes tokens into the slices of the request it is given, and in the
+	// thorough tier one symbolic request is expanded into one request per kind
+	var out wire.AReq
+	b, _ := json.Marshal(sym)
+	_ = json.Unmarshal(b, &out)
 	for i := range out.Rpc.Fdefs {
 		switch out.Rpc.Fdefs[i].Name {
 		case "p", "q", "rq":
